@@ -29,6 +29,7 @@ def mc_pipeline(ck, alpha, n, workers=8):
     meta = out + ".json"
     if os.path.exists(out) and os.path.exists(meta):
         m = json.load(open(meta))
+        m["out"] = out              # (the cache directory may have been copied from elsewhere)
     else:
         cfg = "gen_MC_Pipeline_%s_%d" % (alpha, n)
         write_cfg(cfg, 'CONSTANTS\n  N = %d\n  AlphaName = "%s"\nINIT Init\nNEXT Next\nINVARIANTS PanicFree Grammar Linear MarksInText PosTrue Out\nCHECK_DEADLOCK FALSE\n' % (n, alpha))
@@ -63,6 +64,7 @@ def tlc_cached(ck, module, cfg, deps, workers=8, timeout=7200, xmx="8g", keep_ou
     out = meta[:-5] + ".out"
     if os.path.exists(meta) and (not keep_out or os.path.exists(out)):
         m = json.load(open(meta))
+        m["out"] = out              # (the cache directory may have been copied from elsewhere)
     else:
         r = tlc(module, cfg=cfg, workers=workers, name="%s_%s" % (module, cfg), timeout=timeout, xmx=xmx, out_path=out, coverage=coverage)
         m = {"states": r.distinct, "transitions": r.states, "violated": r.invariant_violated, "liveness_violated": r.liveness_violated, "ok": r.ok, "wall": r.wall, "out": out, "tail": r.out[-3000:]}
